@@ -19,7 +19,7 @@ type Op struct {
 
 var OpKinds = []string{"remove-member", "swap-members", "rename-field", "add-field", "remove-message", "add-message",
 	"toggle-required", "change-field-type", "change-type-mapping", "add-enum-values", "add-group", "add-component",
-	"remove-component", "duplicate-field-number", "duplicate-msgtype", "reorder-messages", "add-nested-groups", "move-framing-field", "same-group-in-components", "change-version", "add-time-field", "type-named-like-enum-field", "enum-of-unmapped-type", "optional-session-field"}
+	"remove-component", "duplicate-field-number", "duplicate-msgtype", "reorder-messages", "add-nested-groups", "move-framing-field", "same-group-in-components", "change-version", "add-time-field", "type-named-like-enum-field", "enum-of-unmapped-type", "optional-session-field", "odd-required-attribute"}
 
 // names the generator or the library's interfaces rely on
 var protectedFields = map[string]bool{
@@ -215,6 +215,24 @@ func Apply(base *schema.Schema, baseTM *schema.TypeMap, ops []Op) (s *schema.Sch
 			m := (*h.members)[op.B%len(*h.members)]
 			m.Required = !m.Required
 			note("set required=%v on %s %s of %s", m.Required, m.Kind, m.Name, h.label)
+		case "odd-required-attribute":
+			// a member whose required attribute is missing or spelled some other way than Y / N: only Y means required
+			h := hs[op.A%len(hs)]
+			if len(*h.members) == 0 {
+				skip(op, "empty container")
+				continue
+			}
+			m := (*h.members)[op.B%len(*h.members)]
+			if h.label == "header" || h.label == "trailer" {
+				switch m.Name {
+				case "SenderCompID", "TargetCompID", "MsgSeqNum", "SendingTime", "BeginString", "BodyLength", "MsgType", "CheckSum":
+					skip(op, "session field "+m.Name)
+					continue
+				}
+			}
+			m.ReqAttr = []string{"absent", "y", "YES", "true", "1", "n", "absent", "O"}[op.C%8]
+			m.Required = false
+			note("required attribute of %s %s in %s: %s", m.Kind, m.Name, h.label, m.ReqAttr)
 		case "optional-session-field":
 			// a dictionary that marks one of the fields the session layer needs (they must be PRESENT in the
 			// header / trailer) as optional: the constructor of the component takes the required members only
